@@ -206,6 +206,16 @@ def gen_notifier_case(rng):
 
 
 def gen_case(rng, tier):
+    case = _gen_case(rng, tier)
+    if "history" in case and rng.random() < 0.4:
+        # observations through different spectral windows (ranges / bin counts): what one window cached must not leak into the next
+        for op in case["history"]:
+            if op.get("op") == "observe" and rng.random() < 0.6:
+                op["win"] = int(rng.integers(1, 4))
+    return case
+
+
+def _gen_case(rng, tier):
     if rng.random() < 0.12:
         return gen_notifier_case(rng)
     has_beam = rng.random() < 0.6
@@ -318,6 +328,30 @@ def gen_case(rng, tier):
         if hist[-1]["op"] != "observe":
             hist.append(dict(op="observe"))
         return dict(cfg=cfg, probes=probes, history=hist)
+    if rng.random() < 0.22:
+        # single-change template: observe, ONE change whose kind is drawn uniformly over the kinds this scene supports (the
+        # uniform histories draw kinds by weight, so rarely drawn setters seldom follow an observation directly), observe
+        cands = {}
+        for _ in range(150):
+            op = gen_op(rng, sim)
+            if op is not None and op["op"] != "same":
+                cands.setdefault(op["op"], op)
+        kinds = sorted(cands)
+        if kinds:
+            # setters of the models themselves count three times
+            kinds = kinds + [k for k in kinds if k in ("bm_line", "pm_gaunt", "pm_quad", "lp_pol", "ls_set", "lp_set")] * 2
+            op = cands[kinds[int(rng.integers(len(kinds)))]]
+            hist.append(dict(op="observe"))
+            hist.append(op)
+            _sim_apply(sim, op)
+            hist.append(dict(op="observe"))
+            if rng.random() < 0.3:
+                op2 = gen_op(rng, sim)
+                if op2 is not None:
+                    hist.append(op2)
+                    _sim_apply(sim, op2)
+                    hist.append(dict(op="observe"))
+            return dict(cfg=cfg, probes=probes, history=hist)
     nops = int(rng.integers(1, 11))
     if rng.random() < 0.75:
         hist.append(dict(op="observe"))
@@ -359,7 +393,10 @@ def _sim_apply(sim, op):
     elif k == "b_models_clear":
         bc["models"] = []
     elif k == "bm_line":
-        bc["models"][op["i"]] = dict(bc["models"][op["i"]], el=op["el"], q=op["q"], tr=op["tr"])
+        if bc["models"][op["i"]]["kind"] == "bes":
+            bc["models"][op["i"]] = dict(bc["models"][op["i"]], tr=op["tr"])
+        else:
+            bc["models"][op["i"]] = dict(bc["models"][op["i"]], el=op["el"], q=op["q"], tr=op["tr"])
     elif k == "b_element":
         bc["element"] = op["v"]
     elif k == "pm_gaunt":
@@ -549,10 +586,19 @@ def gen_op(rng, sim):
     if k == "b_parent":
         return dict(op=k, to=["world", "node"][int(rng.integers(2))])
     if k == "bm_line":
+        # (BeamEmissionLine accepts Balmer-alpha only, so only the CX lines have another legal value)
         idx = [i for i, m in enumerate(bc["models"]) if m["kind"] == "bcx"]
         if not idx:
             return None
         i = idx[int(rng.integers(len(idx)))]
+        cur = bc["models"][i]
+        if cur["kind"] == "bes":
+            trs = [t for t in ([3, 2], [4, 2], [5, 2], [4, 3]) if t != list(cur.get("tr", [3, 2]))]
+            return dict(op=k, i=i, tr=trs[int(rng.integers(len(trs)))])
+        if rng.random() < 0.5:
+            # another transition of the SAME receiver ion (only the coefficients and the wavelength change)
+            up = int(cur["tr"][0]) + int(rng.integers(1, 4))
+            return dict(op=k, i=i, el=cur["el"], q=cur["q"], tr=[up, up - 1])
         new = [m for m, _ in BMODELS if m["kind"] == "bcx"][int(rng.integers(3))]
         return dict(op=k, i=i, el=new["el"], q=new["q"], tr=new["tr"])
     return None
@@ -577,9 +623,11 @@ def execute(case, ctx=None, stop_at_first=True):
     nonzero = False
     for i, op in enumerate(case["history"]):
         if op["op"] == "observe":
-            ol = scene.observe(live, case["probes"])
+            ol = scene.observe(live, case["probes"], win=op.get("win", 0))
             fresh = scene.build(copy.deepcopy(cfg))
-            of = scene.observe(fresh, case["probes"])
+            of = scene.observe(fresh, case["probes"], win=op.get("win", 0))
+            if ctx is not None and op.get("win", 0):
+                ctx.mon("observations_in_another_spectral_window")
             if ctx is not None:
                 ctx.mon("fresh_builds")
                 ctx.mon("observations_compared", len(of))
